@@ -268,6 +268,17 @@ fn run_hidden(c: &HiddenCase) -> CaseResult {
         ensure!(a == b, "state_diverged", "hidden way {}: after call #{j} {what}({x}) of {:?}: (position, length, message, prefix, finished, elapsed, eta, per_sec bits) = {b:?}, the visible twin has {a:?}", c.way % 7, c.big);
         v.label("arguments_over_the_whole_u64_range");
     }
+    if matches!(c.way % 7, 1 | 2) && c.len.map_or(false, |l| l % 4 == 0) {
+        // many lines printed through a bar that cannot draw them (a log that goes nowhere for the whole run)
+        for k in 0..300 {
+            let line = format!("line {k}");
+            catch(|| vis.println(&line)).map_err(|p| Fail::new("panic", format!("visible twin: println #{k} panicked: {p}")))?;
+            catch(|| hid.println(&line)).map_err(|p| Fail::new("panic", format!("hidden bar (way {}): println #{k} panicked: {p}", c.way % 7)))?;
+        }
+        let (a, b) = (snap(&vis), snap(&hid));
+        ensure!(a == b, "state_diverged", "hidden way {}: after 300 println calls: {b:?}, the visible twin has {a:?}", c.way % 7);
+        v.label("hundreds_of_lines_printed_through_a_hidden_bar");
+    }
     if c.way % 7 == 2 {
         // the hidden MultiProgress keeps working as a container: another member, then the first one goes
         let mp = keep_mp.clone().expect("hidden multi");
@@ -310,6 +321,113 @@ fn case_strategy(tier: Tier) -> BoxedStrategy<HiddenCase> {
         .boxed()
 }
 
+// ------------------------------------------------------------------------------------------
+// removed while a steady ticker runs and the MultiProgress is busy (real threads)
+
+#[derive(Debug, Clone, Serialize, Deserialize)]
+pub struct TickerRemoveCase {
+    /// flush of the shared terminal takes this many ms (1..=4)
+    slow_ms: u8,
+    /// steady tick interval of the bar that is removed, ms (1..=3)
+    tick_ms: u8,
+    incs: u8,
+}
+
+#[derive(Clone, Debug)]
+struct SlowTerm(std::sync::Arc<std::sync::atomic::AtomicUsize>, Duration);
+impl indicatif::TermLike for SlowTerm {
+    fn width(&self) -> u16 {
+        60
+    }
+    fn move_cursor_up(&self, _: usize) -> std::io::Result<()> {
+        Ok(())
+    }
+    fn move_cursor_down(&self, _: usize) -> std::io::Result<()> {
+        Ok(())
+    }
+    fn move_cursor_right(&self, _: usize) -> std::io::Result<()> {
+        Ok(())
+    }
+    fn move_cursor_left(&self, _: usize) -> std::io::Result<()> {
+        Ok(())
+    }
+    fn write_line(&self, _: &str) -> std::io::Result<()> {
+        Ok(())
+    }
+    fn write_str(&self, _: &str) -> std::io::Result<()> {
+        Ok(())
+    }
+    fn clear_line(&self) -> std::io::Result<()> {
+        Ok(())
+    }
+    fn flush(&self) -> std::io::Result<()> {
+        self.0.fetch_add(1, std::sync::atomic::Ordering::SeqCst);
+        std::thread::sleep(self.1);
+        Ok(())
+    }
+}
+
+/// "A bar removed from its MultiProgress": the removal itself and every later call return, and the
+/// getters follow the calls - also when the bar has a steady ticker and another member keeps the
+/// MultiProgress busy on a slow terminal at that moment.
+fn run_ticker_remove(c: &TickerRemoveCase) -> CaseResult {
+    use std::sync::atomic::{AtomicBool, Ordering};
+    use std::sync::Arc;
+    let term = SlowTerm(Default::default(), Duration::from_millis(1 + c.slow_ms as u64 % 4));
+    let mp = MultiProgress::with_draw_target(ProgressDrawTarget::term_like(Box::new(term.clone())));
+    let busy = mp.add(ProgressBar::new(1_000_000));
+    let victim = mp.add(ProgressBar::new(100));
+    victim.enable_steady_tick(Duration::from_millis(1 + c.tick_ms as u64 % 3));
+    let stop = Arc::new(AtomicBool::new(false));
+    let worker = {
+        let (busy, stop) = (busy.clone(), stop.clone());
+        std::thread::spawn(move || {
+            while !stop.load(Ordering::SeqCst) {
+                busy.tick();
+                // (the lock of the MultiProgress is not a fair one: leave the other threads a chance to get it)
+                std::thread::sleep(Duration::from_micros(500));
+            }
+        })
+    };
+    std::thread::sleep(Duration::from_millis(20));
+    let incs = 1 + c.incs as u64 % 5;
+    let (tx, rx) = std::sync::mpsc::channel();
+    {
+        let (mp, victim) = (mp.clone(), victim.clone());
+        std::thread::spawn(move || {
+            let r = catch(|| {
+                mp.remove(&victim);
+                for _ in 0..incs {
+                    victim.inc(1);
+                }
+                victim.set_message("gone");
+                (victim.position(), victim.message(), victim.is_finished(), victim.is_hidden())
+            });
+            let _ = tx.send(r);
+        });
+    }
+    let got = rx.recv_timeout(Duration::from_secs(15));
+    stop.store(true, Ordering::SeqCst);
+    let ctx = format!("bar with a {} ms steady ticker removed from a MultiProgress that another member keeps busy (flush takes {} ms)", 1 + c.tick_ms % 3, 1 + c.slow_ms % 4);
+    let got = match got {
+        Ok(r) => r.map_err(|p| Fail::new("panic", format!("{ctx}: panicked: {p}")))?,
+        Err(_) => {
+            // (the threads involved are stuck for good: leak them)
+            std::mem::forget(worker);
+            std::mem::forget(victim);
+            std::mem::forget(busy);
+            std::mem::forget(mp);
+            return Err(Fail::new("removed_bar_hangs", format!("{ctx}: remove() and the calls after it did not return within 15 s")));
+        }
+    };
+    let _ = worker.join();
+    ensure!(got == (incs, "gone".to_string(), false, true), "state_diverged", "{ctx}: (position, message, finished, hidden) = {got:?} after {incs} inc(1) and set_message(\"gone\")");
+    let mut v = Verdict::default();
+    v.nontrivial = true;
+    v.label("removed_while_ticker_runs_and_multi_progress_is_busy");
+    Ok(v)
+}
+
 pub fn property() -> Property {
     let w = default_workers();
     Property {
@@ -327,8 +445,19 @@ pub fn property() -> Property {
             cases: |t| t.pick(20_000, 800_000),
             run: run_hidden,
             signature: no_signature,
-            essential: &["way_hidden_target", "way_not_a_tty", "way_hidden_multi", "way_removed_from_multi", "way_moved_from_visible_to_hidden_multi", "way_removed_from_hidden_multi_that_becomes_visible", "way_hidden_constructor", "arguments_over_the_whole_u64_range", "state_change_and_forced_draw", "finished_before_removal", "adaptor_driven_to_its_end", "limiter_burst_used_up_first"],
+            essential: &["way_hidden_target", "way_not_a_tty", "way_hidden_multi", "way_removed_from_multi", "way_moved_from_visible_to_hidden_multi", "way_removed_from_hidden_multi_that_becomes_visible", "way_hidden_constructor", "hundreds_of_lines_printed_through_a_hidden_bar", "arguments_over_the_whole_u64_range", "state_change_and_forced_draw", "finished_before_removal", "adaptor_driven_to_its_end", "limiter_burst_used_up_first"],
             workers: w,
+            decode: None,
+        }),
+        Box::new(Gen::<TickerRemoveCase> {
+            name: "removed_with_ticker",
+            rule: "real threads: a member with a steady ticker (1-3 ms) is removed from a visible MultiProgress while another member is ticked in a loop on a terminal whose flush takes 1-4 ms; remove(), 1-5 inc(1) and set_message on the removed bar return within 15 s and the getters show exactly those calls",
+            strategy: |_| (0u8..4, 0u8..3, 0u8..5).prop_map(|(slow_ms, tick_ms, incs)| TickerRemoveCase { slow_ms, tick_ms, incs }).boxed(),
+            cases: |t| t.pick(4, 200),
+            run: run_ticker_remove,
+            signature: no_signature,
+            essential: &["removed_while_ticker_runs_and_multi_progress_is_busy"],
+            workers: 4,
             decode: None,
         })],
     }
